@@ -478,7 +478,7 @@ def generate(rng, tier):
 
 # a user-defined `class MyDict(dict)` is NOT generated: on the current tree recreate_branches empties such instances (they
 # have an instance __dict__), see notes/C06.md "dict-subclass-content-dropped" and fixes/C06-dict-subclass-content-dropped.patch
-CONTAINERS = ["dict", "dict", "odict", "ddict"]
+CONTAINERS = ["dict", "dict", "odict", "ddict", "mydict"]   # mydict: a plain user-defined dict subclass (its content was dropped before the repair in /repo)
 
 
 def nested_field_names(p):
